@@ -177,12 +177,19 @@ func localise(n *Node, x ctx) (*Node, result) {
 	return n, check(n, nil, x)
 }
 
+// elementCount: how many elements the (real) value of n has, for naming the
+// input class of a failing @slice/@select.
 func elementCount(n *Node, x ctx) int {
-	a := ref(n, env{g: x.G, keys: x.K})
-	if len(a.vals) == 0 || a.vals[0] == "" {
+	v := ""
+	if n.K == "call" {
+		v = check(n, nil, x).got
+	} else if a := ref(n, env{g: x.G, keys: x.K}); len(a.vals) > 0 {
+		v = a.vals[0]
+	}
+	if v == "" {
 		return 0
 	}
-	return strings.Count(a.vals[0], nul) + 1
+	return strings.Count(v, nul) + 1
 }
 
 // classify names the defect class of a failing helper call.
@@ -218,26 +225,23 @@ func classify(n *Node, x ctx, r result) string {
 	}
 	switch n.S {
 	case "@map", "@filter", "@reduce":
-		if n.A[1].usesNegativeGroup() && r.pan != "" {
+		if n.A[1].usesNegativeGroup() && strings.Contains(r.pan, "index out of range") {
 			return "C17/subcontext/negative-group-index/" + fail
 		}
 		return "C17/" + name + "/" + subFeature(n.A[1]) + "/" + fail
 	case "@for":
-		if (n.A[1].usesNegativeGroup() || n.A[2].usesNegativeGroup()) && r.pan != "" {
+		if (n.A[1].usesNegativeGroup() || n.A[2].usesNegativeGroup()) && strings.Contains(r.pan, "index out of range") {
 			return "C17/subcontext/negative-group-index/" + fail
 		}
-		feat := subFeature(n.A[1], n.A[2])
-		if feat == "plain-subexpression" && len(r.want.vals) > 0 {
-			for _, e := range strings.Split(r.want.vals[0], nul) {
-				if e == "" && r.want.vals[0] != "" {
-					feat = "empty-element"
-				}
-			}
-			if r.want.vals[0] == "" && r.got != "" {
-				feat = "empty-sequence"
+		if r.pan == "" && len(r.want.vals) == 1 {
+			// the expected sequence without its leading empty elements
+			w := r.want.vals[0]
+			t := strings.TrimLeft(w, nul)
+			if t != w && r.got == t {
+				return "C17/for/leading-empty-element/dropped"
 			}
 		}
-		return "C17/for/" + feat + "/" + fail
+		return "C17/for/" + subFeature(n.A[1], n.A[2]) + "/" + fail
 	case "@split":
 		class := "default-delimiter"
 		if len(n.A) > 1 {
